@@ -41,6 +41,20 @@ def enc_cfg(cfg):
             impl.enc_handler(cfg.get("table"), cfg.get("std", 1))]
 
 
+DEFINITION_MISMATCHES = []     # per-instance ASSD values of the implementation that differ from the definition (filled by model_results)
+
+
+def assd_definition(rm, pm):
+    """ASSD of two masks by the exact model of C07 (engine op 701), None when a mask is empty"""
+    if not rm.any() or not pm.any():
+        return None
+    from harness.props import c07
+    mo = engine_run(701, [c07.model_in(rm, pm)], nproc=1)[0]
+    if len(mo) != 2 or not mo[0] or not mo[1]:
+        return None
+    return float(c07.expected_value(mo[0], mo[1]))
+
+
 def arr2(pred, ref):
     return [[int(a), int(b)] for a, b in zip(ref.ravel().tolist(), pred.ravel().tolist())]
 
@@ -258,6 +272,14 @@ def model_results(items):
                         bad = f"{m} undefined for label {l}"
                         break
                     it.append([impl.METRICS.index(m), l, fq(v)])
+                    if m == "ASSD" and ref.size <= 600 and len(DEFINITION_MISMATCHES) < 20:
+                        # the geometric value handed to the pipeline model is the implementation's own; for small inputs it is also
+                        # checked against the definition (the exact model of C07), so that the end-to-end comparison does not
+                        # inherit an error of the kernel
+                        e = assd_definition(ref == l, p2 == l)
+                        if e is not None and abs(v - e) > 1e-9 * max(1.0, abs(e)):
+                            DEFINITION_MISMATCHES.append({"cfg": cfg, "pred": pred, "ref": ref, "label": l, "implementation_assd": float(v),
+                                                          "definition_assd": e})
         if bad:
             out[i] = ("skip", bad)
             continue
